@@ -180,7 +180,7 @@ def check(prop, tier, only_units=None, seed=0):
             prop, tier, len(results), sum(r['obligations'] for r in results), time.time() - t0))
         return 0
     finally:
-        shutil.rmtree(scratch, ignore_errors=True)
+        if not os.environ.get("VERIF_KEEP"): shutil.rmtree(scratch, ignore_errors=True)
 
 
 PROOF_KINDS = ('P', 'W')
